@@ -199,14 +199,17 @@ void classify(const Case& k, const coop::RunResult& r, vh::Stats& st) {
 }
 
 void runCase(const std::string& sub, const Case& k, vh::Stats& st, bool doClassify = true) {
+    long long t0 = uci::nowMs();
     coop::RunResult r = coop::run(k.spec);
     st.evaluations++;
     bool inc = false;
     std::string e = judge(k, r, inc);
     if (getenv("C10_DEBUG")) {
-        fprintf(stderr, "CASE status=%s steps=%ld threads=%ld strategy=%d detail=%s\n", r.status.c_str(), r.steps, r.threadsCreated, k.spec.strategy, r.detail.c_str());
+        fprintf(stderr, "CASE ms=%lld status=%s steps=%ld threads=%ld strategy=%d detail=%s\n", uci::nowMs() - t0, r.status.c_str(), r.steps, r.threadsCreated, k.spec.strategy, r.detail.c_str());
         if (r.status != "ok") { for (size_t i = 0; i < k.cmds.size(); i++) fprintf(stderr, "   %s  @%d:%lld\n", k.cmds[i].text.c_str(), k.cond[i].first, k.cond[i].second);
-            fprintf(stderr, "%s\n", vj::dump(r.toJson(30)).c_str()); }
+            fprintf(stderr, "%s\n", vj::dump(r.toJson(30)).c_str());
+            if (r.status == "stuck") { Value rep = Value::object(); rep["property"] = "C10"; rep["sub"] = sub; rep["message"] = "stuck"; rep["case"] = toJson(k);
+                vj::writeFile("/tmp/c10-stuck-" + std::to_string(getpid()) + "-" + std::to_string(st.evaluations) + ".json", rep); } }
     }
     if (inc) { st.inconclusive++; st.count("status " + r.status); return; }
     if (doClassify) classify(k, r, st);
